@@ -6,7 +6,7 @@ from contracts.packutil import run_contracts
 def add_obligations(pack, tier):
     pack.trust('PFlow.fg_update writes only dae.f and dae.g; System.j_update only the Jacobian blocks; PFlow.init leaves '
                'converged False, mis == [1], niter == 0 (assumed callee contracts)')
-    run_contracts(pack, [(P.nr_step('C01'), None, P.replay_nr_step), (P.nr_solve('C01'),), (P.run('C01'), None, P.replay_run)])
+    run_contracts(pack, [(P.nr_step('C01'), None, P.replay_nr_step), (P.nr_step_point('C01'), None, P.replay_nr_step_point), (P.nr_solve('C01'),), (P.run('C01'), None, P.replay_run)])
     from contracts import C01_assembly
     C01_assembly.add_obligations(pack, tier)
     from contracts import fn_sequence as Q
